@@ -183,6 +183,8 @@ func blankQuery(q *pb.QueryProto) {
 	switch x := q.Query.(type) {
 	case *pb.QueryProto_IntersectsPolyline:
 		x.IntersectsPolyline.LengthMeters = 0
+	case *pb.QueryProto_IntersectsCap:
+		x.IntersectsCap.RadiusMeters = 0 // metres -> angle -> metres: judged by Equal and the second pass instead
 	case *pb.QueryProto_Typed:
 		blankQuery(x.Typed.Query)
 	case *pb.QueryProto_Intersection:
@@ -419,6 +421,7 @@ func wireCheck(n *Node, stats map[string]int) (check string, msg string) {
 	got := proto.Clone(p1).(*pb.NodeProto)
 	if n.K != "area" && !hasArea(n) {
 		blankDerived(got)
+		blankDerived(want)
 		if !proto.Equal(got, want) {
 			return "wire-form", fmt.Sprintf("ToProto gives %s, a client writes %s", prototext.MarshalOptions{}.Format(got), prototext.MarshalOptions{}.Format(want))
 		}
@@ -468,6 +471,7 @@ func wireCheck(n *Node, stats map[string]int) (check string, msg string) {
 		return "second-pass-expr", fmt.Sprintf("second %s first %s", canon(deep(e2, true)), canon(deep(e1, true)))
 	}
 	// the message a client writes decodes to the tree
+	want = clientProto(n)
 	if p := vh.Catch(func() { ec, err = b6.ExpressionFromProto(want) }); p != "" || err != nil {
 		return "client-proto-error", fmt.Sprintf("%s %v", p, err)
 	}
@@ -510,15 +514,25 @@ func queryHas(q *QNode, kind string) bool {
 	return false
 }
 
-func wireFails(n *Node) bool {
+func wireFailsWith(n *Node) string {
 	c, _ := wireCheck(n, map[string]int{})
-	return c != ""
+	return c
 }
 
-func wireCulpritQuery(q *QNode) string {
+func hasHole(polys [][][][2]int64) string {
+	for _, p := range polys {
+		if len(p) > 1 {
+			return ":with-hole"
+		}
+	}
+	return ""
+}
+
+// wireCulpritQuery / wireCulprit: a smallest sub-tree that fails the SAME check on its own
+func wireCulpritQuery(q *QNode, check string) string {
 	for _, c := range append([]*QNode{q.Q}, q.Qs...) {
-		if c != nil && wireFails(&Node{K: "query", Q: c}) {
-			return wireCulpritQuery(c)
+		if c != nil && wireFailsWith(&Node{K: "query", Q: c}) == check {
+			return wireCulpritQuery(c, check)
 		}
 	}
 	switch q.K {
@@ -526,31 +540,35 @@ func wireCulpritQuery(q *QNode) string {
 		return "query:" + q.K + ":" + shortHash(q)
 	case "icap":
 		return "query:icap:radius=" + q.C
+	case "impoly":
+		return "query:impoly" + hasHole(q.Polys)
 	}
 	return "query:" + q.K
 }
 
-func wireCulprit(n *Node) string {
+func wireCulprit(n *Node, check string) string {
 	for _, c := range n.children() {
-		if wireFails(c) {
-			return wireCulprit(c)
+		if wireFailsWith(c) == check {
+			return wireCulprit(c, check)
 		}
 	}
 	switch n.K {
 	case "query":
-		return wireCulpritQuery(n.Q)
+		return wireCulpritQuery(n.Q, check)
 	case "coll":
 		for _, kv := range n.Items {
 			for _, it := range kv {
-				if wireFails(it) {
-					return "coll-item:" + wireCulprit(it)
+				if wireFailsWith(it) == check {
+					return "coll-item:" + wireCulprit(it, check)
 				}
 			}
 		}
 		return "coll:" + shortHash(n.Items)
 	case "int", "float", "bool":
 		return n.K + ":" + n.C
-	case "sym", "str", "id", "tag", "point", "path", "area", "route":
+	case "area":
+		return "area" + hasHole(n.Polys)
+	case "sym", "str", "id", "tag", "point", "path", "route":
 		return n.K
 	}
 	return n.K + ":" + shortHash(stripPos(n))
@@ -577,6 +595,58 @@ type wireCase struct {
 	Ignore []string `json:"ignore"`
 }
 
+// runWireObserve executes trees OUTSIDE the property's domain and only reports what happens (never a verdict).
+func runWireObserve(data json.RawMessage) vh.Verdict {
+	var c wireCase
+	if err := json.Unmarshal(data, &c); err != nil {
+		return vh.Fail("harness-json", "bad case: %v", err)
+	}
+	check := ""
+	if p := vh.Catch(func() { check, _ = wireCheckNoClient(c.T) }); p != "" {
+		check = "panic"
+	}
+	if check == "" {
+		check = "round-trips"
+	}
+	return vh.Verdict{OK: true, Obs: map[string]interface{}{"check": check}}
+}
+
+// wireCheckNoClient: the round trip only (no comparison with a hand-written client message)
+func wireCheckNoClient(n *Node) (string, string) {
+	e0, err := build(n, true)
+	if err != nil {
+		return "harness-build", err.Error()
+	}
+	var p1 *pb.NodeProto
+	var e1 b6.Expression
+	if p := vh.Catch(func() { p1, err = e0.ToProto() }); p != "" {
+		return "toproto-panic", p
+	}
+	if err != nil {
+		return "toproto-error", err.Error()
+	}
+	if p := vh.Catch(func() { e1, err = b6.ExpressionFromProto(p1) }); p != "" {
+		return "fromproto-panic", p
+	}
+	if err != nil {
+		return "fromproto-error", err.Error()
+	}
+	if canon(deep(e0, true)) != canon(deep(e1, true)) {
+		return "differs", ""
+	}
+	if !e0.Equal(e1) || !e1.Equal(e0) {
+		return "not-equal", ""
+	}
+	var p2 *pb.NodeProto
+	if p := vh.Catch(func() { p2, err = e1.ToProto() }); p != "" || err != nil {
+		return "second-pass-error", p
+	}
+	if !proto.Equal(p1, p2) {
+		return "second-pass-proto", ""
+	}
+	return "", ""
+}
+
 func runWire(data json.RawMessage) vh.Verdict {
 	var c wireCase
 	if err := json.Unmarshal(data, &c); err != nil {
@@ -588,7 +658,7 @@ func runWire(data json.RawMessage) vh.Verdict {
 		stats["roundtrips_ok"]++
 		return vh.Verdict{OK: true, Stats: stats}
 	}
-	key := check + ":" + wireCulprit(c.T)
+	key := check + ":" + wireCulprit(c.T, check)
 	for _, k := range c.Ignore {
 		if k == key {
 			stats["ignored_known_failures"]++
